@@ -6,14 +6,17 @@ package main
 
 import (
 	"bytes"
+
 	"encoding/json"
 	"fmt"
+	"go.sia.tech/coreutils/chain"
 	"os"
 
 	"verif/harness/internal/chaingen"
 	"verif/harness/internal/hx"
 	"verif/harness/internal/mgrsim"
 	"verif/harness/internal/rng"
+	"verif/harness/internal/storeobs"
 )
 
 func main() { hx.Main("C01", run) }
@@ -176,6 +179,27 @@ func checkStep(t *chaingen.Tree, op mgrsim.Op, prev, o mgrsim.Obs, submitted map
 	}
 }
 
+// classifyTipState re-runs the history on an observed store and lets the C02 judge decide
+// whether a tip state that differs from the linear replay is the known expiry-order finding
+// (the only served data differing from a linear twin are permuted expiration lists, explained
+// by the exported diffs) — then the kind is c01-tip-state-differs-by-expiry-order.
+func classifyTipState(t *chaingen.Tree, plan []mgrsim.Op) string {
+	nd, err := storeobs.NewNode(t, chain.NewMemDB(), nil)
+	if err != nil {
+		return "c01-tip-state-differs"
+	}
+	for _, op := range plan {
+		if o := nd.Do(op); o.Panic {
+			return "c01-tip-state-differs"
+		}
+	}
+	f, _ := storeobs.Judge(nd, storeobs.NewTwins(t))
+	if f != nil && f.Kind == storeobs.KindF8 {
+		return "c01-tip-state-differs-by-expiry-order"
+	}
+	return "c01-tip-state-differs"
+}
+
 func encFull(n *chaingen.Node) []byte {
 	return mgrsim.EncState(n.FullState)
 }
@@ -282,6 +306,16 @@ func run(c *hx.Ctx) {
 		for _, n := range t.Nodes {
 			if n.Corrupt != "" {
 				res.Count("corruption:" + n.Corrupt)
+			}
+		}
+		if f != nil && f.kind == "c01-tip-state-differs" {
+			upto := append(append([]mgrsim.Op(nil), cs.Plan...), mgrsim.FinalFlush(t)...) // runCase appends the final flush
+			if f.at+1 < len(upto) {
+				upto = upto[:f.at+1]
+			}
+			if k := classifyTipState(t, upto); k != f.kind {
+				res.Fail(k, f.detail+" — the C02 judge attributes the difference to the expiration-list order (known finding F8)", map[string]any{"case": cs, "tree": describe(t)})
+				f = nil
 			}
 		}
 		if f != nil {
